@@ -521,6 +521,12 @@ func init() {
 					}
 				}
 			}
+			// segments delimited only by the tfra of a trailing mfra, under every flag combination
+			for _, lay := range []string{"TfTM", "TTfM", "TfTfM"} {
+				for _, fl := range []string{"0", "1", "2", "3"} {
+					r = append(r, inst(p, "VerifC12Grouping", lay, fl, "false"))
+				}
+			}
 			for _, c := range r {
 				c.MaxWallS = tierW(tier, 60, 600)
 			}
@@ -735,10 +741,12 @@ func init() {
 				}
 			}
 			for _, fs := range [][2]int{{1, 2}, {1, 4}, {2, 2}, {2, 3}} {
-				r = append(r, inst(mod+"/examples/resegmenter", "VerifC11Resegment", itoa(fs[0]), itoa(fs[1])))
+				r = append(r, inst(mod+"/examples/resegmenter", "VerifC11Resegment", itoa(fs[0]), itoa(fs[1]), "false"))
 			}
+			r = append(r, inst(mod+"/examples/resegmenter", "VerifC11Resegment", "1", "2", "true"), inst(mod+"/examples/resegmenter", "VerifC11Resegment", "2", "2", "true"))
 			if tier == "thorough" {
-				r = append(r, inst(mod+"/examples/resegmenter", "VerifC11Resegment", "3", "2"), inst(mod+"/examples/resegmenter", "VerifC11Resegment", "2", "4"))
+				r = append(r, inst(mod+"/examples/resegmenter", "VerifC11Resegment", "3", "2", "false"), inst(mod+"/examples/resegmenter", "VerifC11Resegment", "2", "4", "false"),
+					inst(mod+"/examples/resegmenter", "VerifC11Resegment", "2", "3", "true"))
 			}
 			for _, nk := range [][2]int{{1, 1}, {2, 1}, {2, 2}, {3, 2}} {
 				r = append(r, inst(mod+"/examples/combine-segs", "VerifC11Combine", itoa(nk[0]), itoa(nk[1])))
